@@ -1,0 +1,23 @@
+//go:build verif
+
+package quotaresource
+
+// VerifObserveQuotaUsed runs the body of the quota-used metric callback (the
+// read path a metrics scrape takes) and returns the counters per quota/group.
+func VerifObserveQuotaUsed(q QuotaAdmI) map[string]int64 {
+	qr, ok := q.(*quotaResource)
+	if !ok {
+		return nil
+	}
+	out := map[string]int64{}
+	for quotaID := range qr.definedQuotas {
+		quota, err := qr.getQuota(quotaID)
+		if err != nil {
+			continue
+		}
+		for groupID, counter := range quota.GetQuotaGroupsCounters() {
+			out[quotaID+"/"+groupID] = counter
+		}
+	}
+	return out
+}
